@@ -5,6 +5,7 @@ package main
 // assumption in evidence.
 
 import (
+	"fmt"
 	"go/types"
 
 	"golang.org/x/tools/go/ssa"
@@ -85,6 +86,19 @@ func init() {
 		fc.sc.assume(tImp(tAnd(tEq(args[0].Len, "0"), tEq(args[1].Len, "0")), r))
 		return boolVal(r)
 	}
+	envFuncs["bytes.Compare"] = func(fc *FnCtx, fr *Frame, st *State, reach string, args []Val, call ssa.CallInstruction) Val {
+		a, b := args[0], args[1]
+		r := fc.sc.fresh("bytes_cmp", "Int")
+		fc.sc.assume(sx("inr", r, "(- 1)", "1"))
+		ia := tSel(fc.elemArray(st, a), a.Arr)
+		ib := tSel(fc.elemArray(st, b), b.Arr)
+		fc.nq++
+		k := fmt.Sprintf("q%d_k", fc.nq)
+		same := "(forall ((" + k + " Int)) (! (=> (and (<= " + a.Off + " " + k + ") (< " + k + " (+ " + a.Off + " " + a.Len + "))) (= (select " + ia + " " + k + ") (select " + ib + " (+ (- " + k + " " + a.Off + ") " + b.Off + ")))) :pattern ((select " + ia + " " + k + "))))"
+		fc.sc.assume(tImp(tEq(r, "0"), tAnd(tEq(a.Len, b.Len), same)))
+		fc.sc.assume(tImp(tAnd(tEq(a.Len, "0"), tEq(b.Len, "0")), tEq(r, "0")))
+		return intVal(types.Typ[types.Int], r)
+	}
 	timeEnv()
 	envFuncs["(*sync.Pool).Put"] = nop
 	envFuncs["(*sync.Pool).Get"] = func(fc *FnCtx, fr *Frame, st *State, reach string, args []Val, call ssa.CallInstruction) Val {
@@ -136,7 +150,6 @@ func init() {
 		return intVal(types.Typ[types.Int], n)
 	}
 }
-
 
 // ---- time.Time: an instant is modelled by its Unix nanoseconds tnanos(wall, ext) ----
 
